@@ -28,6 +28,7 @@ fn main() {
                 std::process::exit(2);
             }
         }
+        "c18-child" if args.len() == 6 => props::c18::child(&args[2..]),
         _ => usage(),
     }
 }
